@@ -304,7 +304,12 @@ func (v *DenseInt16Vector) Import(filename string) error {
       if err != nil {
         return fmt.Errorf("invalid table")
       }
-      *v = append(*v, int16(value))
+      x := int16(value)
+      // integers beyond 2^53 have no exact float64 representation
+      if k, err := strconv.ParseInt(fields[i], 10, 64); err == nil && k != 0 {
+        x = int16(k)
+      }
+      *v = append(*v, x)
     }
   }
   return nil
